@@ -570,8 +570,11 @@ def write_capture(b, workdir, pkts=None, container=None, keys=None, name="in"):
             rnd = random.Random(k.get("seed", 0) + 99)
             front = [d for d, p_ in zip(dsbs, pos) if p_ == "first"]
             pre_idb = [d for d, p_ in zip(dsbs, pos) if p_ == "before_idb"]
+            # an integer places the block directly in front of the packet with that index (largest index first, so that indexes stay valid)
+            for d, p_ in sorted(((d, p_) for d, p_ in zip(dsbs, pos) if isinstance(p_, int)), key=lambda x: -x[1]):
+                items.insert(min(p_, len(items)), d)
             for d, p_ in zip(dsbs, pos):
-                if p_ not in ("first", "before_idb"):
+                if p_ not in ("first", "before_idb") and not isinstance(p_, int):
                     items.insert(rnd.randrange(len(items) + 1), d)
             items = front + items
         # unrelated blocks
